@@ -149,6 +149,19 @@ mutual
           | port => simp [isInvocation] at hw'
         | icall h n ps => rw [genStmt]; simp only [szS, List.length_cons]; omega
         | _ => simp [isInvocation] at hw'
+    | .genEvt _ m d tgt, hw => by
+        have hw' : (m.isSome = true ∧ wfParams ctx d = true) ∧ wfTo tgt = true := by simpa [wfStmt] using hw
+        obtain ⟨mm, rfl⟩ := Option.isSome_iff_exists.mp hw'.1.1
+        have := szP_le ctx d hw'.1.2
+        simp only [szS, genStmt, genEvtSpec, List.length_append, List.length_cons, List.length_nil]; omega
+    | .createEvt _ _ m d tgt, hw => by
+        have hw' : (m.isSome = true ∧ wfParams ctx d = true) ∧ wfTo tgt = true := by simpa [wfStmt] using hw
+        obtain ⟨mm, rfl⟩ := Option.isSome_iff_exists.mp hw'.1.1
+        have := szP_le ctx d hw'.1.2
+        simp only [szS, genStmt, genEvtSpec, List.length_append, List.length_cons, List.length_nil]; omega
+    | .genPre e, hw => by
+        cases e <;> simp [wfStmt] at hw
+        simp [szS, szE, genStmt, genExpr]
   theorem szB_le (ctx : Ctx) : ∀ b : Block, wfBlock ctx b = true → szB b ≤ 3 * (genBlock b).length + 1
     | .nil, _ => by simp [szB, genBlock]
     | .cons s more, hw => by
